@@ -133,7 +133,9 @@ Body(T, t, entry, fuel) ==
   \o (IF d.a # "none" THEN RB(T, entry, "a", fuel) ELSE "")
   \o (IF TopLevel(d, "b") THEN RB(T, entry, "b", fuel) ELSE "")
   \o (IF d.z THEN RB(T, entry, "z", fuel) ELSE "")
-  \o (IF d.usec THEN "C" \o CompOwner(T) \o "[" \o (IF T[CompOwner(T)].inc # "" /\ T[CompOwner(T)].incpos = "comp"
+  \* (the body of the component carries the version of its defining template: a replaced provider serves its NEW body
+  \* although the signature of the component did not change)
+  \o (IF d.usec THEN "C" \o CompOwner(T) \o (IF T[CompOwner(T)].v2 THEN "'" ELSE "") \o "[" \o (IF T[CompOwner(T)].inc # "" /\ T[CompOwner(T)].incpos = "comp"
                                                        THEN Own(T, IncOf(T, CompOwner(T)), fuel - 1) ELSE "") \o "]" ELSE "")
 \* an included template renders its OWN top level with its own lineage (this engine; as in Tera v1).
 \* When the included template itself extends another one the statements do not say what is meant: "?"
